@@ -107,6 +107,7 @@ F = {
     "lazy_indented": lambda n: "a\n" + "     b\n" * n,
     "table_rows": lambda n: "a|b\n-|-\n" + "c|d\n" * n,
     "table_cols": lambda n: "|".join("a" for _ in range(n)) + "\n" + "|".join("-" for _ in range(n)) + "\n",
+    "table_sparse_rows": lambda n: "|".join("a" for _ in range(max(2, int(n**0.5) * 3))) + "\n" + "|".join("-" for _ in range(max(2, int(n**0.5) * 3))) + "\n" + "b\n" * (max(2, int(n**0.5) * 3)),
     "table_header_only_lines": lambda n: "a|b\n" * n,
     "table_escaped_pipes": lambda n: "a|b\n-|-\n" + "\\|" * n + "\n",
     "refdefs_consecutive": lambda n: "".join("[r%d]: /u\n" % i for i in range(n)),
